@@ -793,6 +793,10 @@ def injections(ctx, rng, type_name, cls_name, base_pairs):
 	if wrong not in [codec.fix_name(f.name) for f in fields]:
 		add(with_member(wrong, {'i': 1}), 'unknown-member', f'misspelt member {wrong!r}', wrong)
 	add(with_member('Fee', {'i': 1}), 'unknown-member', 'member name in the wrong case', 'Fee')
+	# fragments and near-misses of the one key that is not a member (`type`)
+	for fragment in ('t', 'y', 'e', 'ty', 'pe', 'typ', 'ype', '', 'types', 'type_', ' type', 'Type'):
+		if fragment not in [codec.fix_name(f.name) for f in fields]:
+			add(with_member(fragment, {'i': 1}), 'unknown-member', f'unknown member {fragment!r} (a fragment / near-miss of `type`)', fragment)
 	bound = [f.name for f in codec.non_const(model) if codec.bound_field(model, f) is not None]
 	if bound:
 		add(with_member(bound[0], {'i': 1}), 'unknown-member', f'derived size/count member {bound[0]!r}', bound[0])
